@@ -1656,11 +1656,19 @@ impl Fsm {
                             //    Once it cancels the invoked session, the Processor MUST ignore any events
                             //    it receives from that session. In particular it MUST NOT not insert them
                             //    into the external event queue of the invoking session.
-                            // Check if the session is active.
-                            if get_global!(datamodel)
-                                .child_sessions
-                                .contains_key(invoke_id)
-                            {
+                            // Check if the session is active. A later invocation of the same <invoke> reuses
+                            // the invoke id: events still queued from the cancelled one are told apart by
+                            // their origin (the session they come from).
+                            let from_active_session = match get_global!(datamodel).child_sessions.get(invoke_id) {
+                                Some(session) => match &externalEventTmp.origin {
+                                    Some(origin) => {
+                                        *origin == format!("{}{}", SCXML_TARGET_SESSION_ID_PREFIX, session.session_id)
+                                    }
+                                    None => true,
+                                },
+                                None => false,
+                            };
+                            if from_active_session {
                                 externalEvent = externalEventTmp;
                                 break;
                             } else {
